@@ -638,7 +638,12 @@ class Engine:
         path.pc.append(z3.Not(c))
         b = self.ev(path, e.orelse)
         del path.pc[saved:]
-        return self.ite(path, c, a, b)
+        try:
+            return self.ite(path, c, a, b)
+        except EngineError:
+            # two values of different kinds (`e.args if len(e.args) == 0 else e.args[0]`): a value the engine does not interpret - whatever reads it later is
+            # either indifferent to it (an f-string, an argument of an uninterpreted call) or out of reach there
+            return SOpaque("value")
 
     def ite(self, path, c, a, b):
         if isinstance(a, SConst) and isinstance(a.py, int) and not isinstance(a.py, bool):
